@@ -262,7 +262,7 @@ OTHER = "witness=other (no retire() was delayed between clock read and CAS)"
 def mc_jobs(tier, old_retire=False):
     """old_retire: the code still has the retire() that reads the clock once (commits before b43a36c): the h4 family
     is then checked in that variant (Fix = FALSE): CoolingNoStall must hold, Cooling is expected to fail (H4)"""
-    jobs = [("grow2_sc", "CVec_grow2q_sc.cfg"), ("wm", "CVec_wmq.cfg"), ("wrap_sc", "CVec_wrap_sc.cfg")]
+    jobs = [("grow2_sc", "CVec_grow2q_sc.cfg"), ("wm", "CVec_wmq.cfg"), ("wrap_sc", "CVec_wrapq_sc.cfg")]
     if old_retire:
         jobs += [("h4_nostall", "CVec_h4ns_unfixed.cfg"), ("h4_cooling", "CVec_h4_unfixed.cfg")]
     else:
@@ -270,7 +270,7 @@ def mc_jobs(tier, old_retire=False):
     if tier == "thorough":
         jobs += [("grow2_full_sc", "CVec_grow2_sc.cfg"), ("grow3_sc", "CVec_grow3_sc.cfg"), ("wm_full", "CVec_wm.cfg"), ("noreduction_xcheck", "CVec_full.cfg")]
         if not old_retire:
-            jobs += [("clock_sc", "CVec_clock_sc.cfg"), ("h4_tpu2", "CVec_h4_tpu2.cfg"), ("h4_pastwrap", "CVec_h4w.cfg"), ("h4_old_retire_nostall", "CVec_h4ns_unfixed.cfg")]
+            jobs += [("clock_sc", "CVec_clock_sc.cfg"), ("h4_tpu2", "CVec_h4_tpu2.cfg"), ("h4_pastwrap", "CVec_h4w.cfg"), ("wrap_full_sc", "CVec_wrap_sc.cfg"), ("h4_old_retire_nostall", "CVec_h4ns_unfixed.cfg")]
     return [(n, os.path.join(SPEC, "mc", c)) for n, c in jobs if os.path.exists(os.path.join(SPEC, "mc", c))]
 
 
